@@ -174,12 +174,12 @@ theorem hp_hofPairs (c : ICtx) (a : Nat) : ∀ (ps : List (Item × Item)) (D : E
   | (x, y) :: ps, D, acc => by
     simp only [hofPairs]; exact HP.bnd (hp_callFn cfg hs ev hev _ _ _ _) (fun r => hp_hofPairs c a ps _ _)
 
-theorem hp_hofKeys (c : ICtx) (a : Nat) : ∀ (xs : Seq) (D : Env) (acc : List (Item × List Int)),
-    HP (hofKeys cfg ev c a D acc xs)
+theorem hp_hofKeys (ci : Bool) (c : ICtx) (a : Nat) : ∀ (xs : Seq) (D : Env) (acc : List (Item × List Int)),
+    HP (hofKeys cfg ev ci c a D acc xs)
   | [], D, acc => HP.ret _
   | x :: xs, D, acc => by
     simp only [hofKeys]
-    exact HP.bnd (hp_callFn cfg hs ev hev _ _ _ _) (fun r => HP.bnd (HP.lift _) (fun k => hp_hofKeys c a xs _ _))
+    exact HP.bnd (hp_callFn cfg hs ev hev _ _ _ _) (fun r => HP.bnd (HP.lift _) (fun k => hp_hofKeys ci c a xs _ _))
 
 omit hs in
 theorem hp_evArith (op : AOp) (a b : Expr) (c : ICtx) (D : Env) : HP (evArith ev op a b c D) := by
@@ -200,6 +200,10 @@ theorem hp_step (e : Expr) (c : ICtx) (D : Env) : HP (step cfg ev e c D) := by
   | lit n => exact HP.ret _
   | dlit n => exact HP.ret _
   | elit n => exact HP.ret _
+  | slit cs => exact HP.ret _
+  | nanlit => exact HP.ret _
+  | inflit p => exact HP.ret _
+  | negzlit => exact HP.ret _
   | inst t e =>
     simp only [step]
     exact HP.bnd (hev _ _ _) (fun _ => HP.ret _)
@@ -299,13 +303,13 @@ theorem hp_step (e : Expr) (c : ICtx) (D : Env) : HP (step cfg ev e c D) := by
     split
     · exact HP.ret _
     · exact HP.bnd (hev _ _ _) (fun _ => hp_hofPairs cfg hs ev hev _ _ _ _ _)
-  | sortK s f =>
+  | sortK ci s f =>
     simp only [step]
     apply HP.bnd (hp_funArgCheck ev hev _ _ _ _); intro fa
     apply HP.bnd (hev _ _ _); intro xs
     split
     · exact HP.ret _
-    · apply HP.bnd (hp_hofKeys cfg hs ev hev _ _ _ _ _); intro ks
+    · apply HP.bnd (hp_hofKeys cfg hs ev hev _ _ _ _ _ _); intro ks
       split
       · exact HP.ret _
       · exact HP.thr _
